@@ -273,6 +273,17 @@ func runClientScript(depth int, steps []string) (res clientRun) {
 			// a movetime that is not floor(rem/1ms) although rem >= 1ms: the clock moved by a millisecond between
 			// two adjacent statements (the machine stalled); the caller runs the line again
 			if hasRem && rem >= msNS {
+				// ... or the whole millisecond was lost before the client looked at the clock: it refused to search
+				// ("Timeout too short") although the caller left it a millisecond and more
+				sawGo := false
+				for _, l := range tee.lines {
+					if strings.HasPrefix(l, "go") {
+						sawGo = true
+					}
+				}
+				if !sawGo && rem < 3*msNS && strings.HasPrefix(o, "err") {
+					res.stalled = true
+				}
 				for _, l := range tee.lines {
 					w := strings.Fields(l)
 					if len(w) >= 3 && w[0] == "go" && w[1] == "movetime" && w[2] != strconv.FormatInt(rem/msNS, 10) {
